@@ -3,8 +3,8 @@ package main
 func init() {
 	register(propSpec{
 		ID: "C08", Pkg: "props/c08", NeedCLI: true, RaceInQuick: true, Isolated: true,
-		Rule: "cases: nucleotide alignments generated as for C07 (3-10 rows, 1-40 columns, up to 40 rows for thread fan-out; ACGT / gaps / IUPAC tiers in upper, lower, soft-masked and mixed case; identical to saturated pairs) x 7 models x gamma/alpha x rm-gaps x gap-mut x rm-ambiguous x weights, with a drawn column permutation, replication factor 1-4 (adjacent copies or concatenated copies), row permutation and thread counts from {1,2,3,8,16,32}; transformed alignments are built directly or through SelectSites/ReverseComplement; in half of the relation and thread-count cases ALL matrices of the case are computed with ONE model object (as cmd/computedist.go does for several alignments in one input and cmd/distboot.go for every replicate), in the order original -> transformed or transformed -> original (the original recomputed after each transformed alignment must be bit-identical to its first matrix); fault models wrapping a real DistModel whose Distance (or Sequence) fails at the k-th call, once or from then on (then optionally with a barrier so that every worker reports its failure at the same moment), for EVERY k in 1..#calls+1 and threads {1,2,4,16}; the same on 16-40 sequences (120-780 pairs, more than the channel between producer and workers holds) with the failure at the first call, an early one, around the 100th, a drawn one and the last three; goalign compute distance with -t 1,2,3,8,16,32, one case in three on a phylip file with two alignments of different numbers of sequences and ranges over both (each matrix judged for its own alignment); goalign compute distance -p on ONE phylip file holding the original and a transformed alignment (column permutation, replication, reverse complement, row permutation; either order), whose two printed matrices must satisfy the relation at 1e-9. " +
-			"Oracle (metamorphic, relative 1e-9 on the pairs whose estimator is well conditioned under every reading; undefined pairs must be undefined on both sides): D(permuted columns, permuted weights) = D; D(every column k times) = D(weights k*w) = D, raw distances x k; D(unit weights) = D(nil); D(reverse complement, reversed weights) = D; D(permuted rows) = permuted D; the internal-gap counting mode is exempt from the column relations and from the reverse complement. Matrices for all thread counts, and two runs with 8 threads, are compared BITWISE. The same checks run in a -race build under GOMAXPROCS 4 (quick) and 1,2,4,16 (thorough): any race report fails. Fault injection: the call returns within the watchdog (20 s, >= 10^4 x the normal time; a miss is confirmed alone in a fresh process) with the injected error; with k beyond the last call it returns the unchanged matrix. The command prints identical bytes for every -t and the printed matrix agrees with the C07 oracle at 1e-9. " +
+		Rule: "cases: nucleotide alignments generated as for C07 (3-10 rows, 1-40 columns, up to 40 rows for thread fan-out, and a class of 46-80 sequences x 1-12 columns, i.e. more than 1024 pairs, in the relations, thread-count and race runs; ACGT / gaps / IUPAC tiers in upper, lower, soft-masked and mixed case; identical to saturated pairs) x 7 models x gamma/alpha x rm-gaps x gap-mut x rm-ambiguous x weights, with a drawn column permutation, replication factor 1-4 (adjacent copies or concatenated copies), row permutation and thread counts from {1,2,3,8,16,32}; transformed alignments are built directly or through SelectSites/ReverseComplement; in half of the relation and thread-count cases ALL matrices of the case are computed with ONE model object (as cmd/computedist.go does for several alignments in one input and cmd/distboot.go for every replicate), in the order original -> transformed or transformed -> original (the original recomputed after each transformed alignment must be bit-identical to its first matrix); fault models wrapping a real DistModel whose Distance (or Sequence) fails at the k-th call, once or from then on (then optionally with a barrier so that every worker reports its failure at the same moment), for EVERY k in 1..#calls+1 and threads {1,2,4,16}; the same on 16-40 sequences (120-780 pairs, more than the channel between producer and workers holds) with the failure at the first call, an early one, around the 100th, a drawn one and the last three; goalign compute distance with -t 1,2,3,8,16,32, one case in three on a phylip file with two alignments of different numbers of sequences and ranges over both (each matrix judged for its own alignment); goalign compute distance -p on ONE phylip file holding the original and a transformed alignment (column permutation, replication, reverse complement, row permutation; either order), whose two printed matrices must satisfy the relation at 1e-9. " +
+			"Oracle (metamorphic, relative 1e-9 on the pairs whose estimator is well conditioned under every reading; undefined pairs must be undefined on both sides): D(permuted columns, permuted weights) = D; D(every column k times) = D(weights k*w) = D, raw distances x k; D(unit weights) = D(nil); D(reverse complement, reversed weights) = D; D(permuted rows) = permuted D; the internal-gap counting mode is exempt from the column relations and from the reverse complement. Matrices for all thread counts, and two runs with 8 threads, are compared BITWISE, and the matrix of the thread-count run is judged entry by entry against the C07 oracle. The same checks run in a -race build under GOMAXPROCS 4 (quick) and 1,2,4,16 (thorough): any race report fails. Fault injection: the call returns within the watchdog (20 s, >= 10^4 x the normal time; a miss is confirmed alone in a fresh process) with the injected error; with k beyond the last call it returns the unchanged matrix. The command prints identical bytes for every -t and the printed matrix agrees with the C07 oracle at 1e-9. " +
 			"Non-trivial: the transformed alignment differs from the original as a byte matrix and the matrix has a finite non-zero entry (relations); >= 3 computed pairs and a finite non-zero entry (threads; always >= 2 threads); >= 1 call of the failing method (faults); distinct = distinct JSON form of the case",
 		Assumptions: []string{
 			"the race detector and varied GOMAXPROCS explore interleavings, they do not enumerate them: a race that needs a rare schedule can be missed",
